@@ -447,6 +447,13 @@ Proof.
   apply andb_true_iff in HP. destruct HP as [H1 H2]. rewrite Hf, IH; auto.
 Qed.
 
+Lemma exports_auto_off : forall hsm auto attr,
+  hsm || negb auto || (attr =? "state") = true -> exports_auto hsm auto attr = false.
+Proof.
+  intros hsm auto attr H. unfold exports_auto.
+  destruct hsm; [reflexivity|]. destruct auto; [|reflexivity]. simpl in *. rewrite H. reflexivity.
+Qed.
+
 Lemma of_to_markup : forall m, wf_machine m = true -> of_markup (m_hsm m) (to_markup m) = m.
 Proof.
   intros m W. unfold wf_machine in W.
@@ -460,6 +467,9 @@ Proof.
        k_bsc k_asc k_pe k_fe k_oe k_of k_send k_auto k_attr k_override k_ignore k_queued k_models
        k_initial k_name k_transitions k_states].
   rewrite conv_name_back. cbn [m_name].
+  rewrite exports_auto_off by assumption.
+  match goal with |- context [add_all (map of_ktrans ?l) []] =>
+    change (add_all (map of_ktrans l) []) with (build_events l) end.
   rewrite !clean_ok by assumption.
   rewrite map_map.
   rewrite (map_id_forallb (fun x => of_kstate ign (conv_state hsm sts x)) (wf_state hsm ign sts) sts
@@ -686,14 +696,15 @@ Lemma ex_flat_wf : wf_machine ex_flat = true.
 Proof. vm_compute. reflexivity. Qed.
 
 (* a script inside the envelope: read, add a compound state, add transitions (wildcard source,
-   reflexive destination), register callbacks, read again *)
+   reflexive destination), register callbacks (dynamic methods and the hierarchical
+   on_enter(state, cb) helper), read again *)
 Definition ex_ops : list op :=
   [ OGet;
     OAddState [] (KState "C" [("on_enter", AList ["k9"])] true (Some (inl "p")) [] [KState "p" [] false None [] []]);
     OAddTrans [] "e5" None DSame ["q1"] [] [] [] [];
     OAddTrans ["B"] "n1" (Some ["x"; "y"]) (DTo "x") [] [] [] ["k1"] [];
     ORegState 2 ["B"; "y"] "k2"; ORegEvent 0 "toB" "k3"; OSetModel 0 (MS ["C"; "p"]); OGet;
-    ORemTrans "back" None None ].
+    ODirectState 0 ["B"; "x"] "k4"; ORemTrans "back" None None ].
 Lemma ex_ops_in_envelope : forallb op_in_envelope ex_ops = true.
 Proof. reflexivity. Qed.
 Lemma ex_ops_effect :
@@ -729,17 +740,14 @@ Lemma faithful_refuted_auto_name :
             /\ m_events (of_markup (m_hsm m) (to_markup m)) = [].
 Proof. exists kf2. vm_compute. repeat split; reflexivity. Qed.
 
-(* KF-C14-4: HierarchicalMachine.on_enter(state, callback) bypasses the invalidation *)
-Lemma current_refuted_direct :
-  exists d ops, existsb (fun o => negb (op_in_envelope o)) ops = true
-    /\ map ks_attrs (k_states (snd (getter (run_ops ops (construct true d))))) = [[]]
-    /\ map ks_attrs (k_states (to_markup (mach (run_ops ops (construct true d))))) = [[("on_enter", AList ["late"])]].
-Proof.
-  exists (to_markup (mkMachine true [st "A" [] []] [] (Some (inl "A")) "" [] [] [] [] [] [] false false "state"
-                               false None false [])),
-         [OGet; ODirectState 0 ["A"] "late"].
-  vm_compute. repeat split; reflexivity.
-Qed.
+(* the hierarchical on_enter(state, cb) helper right after a read is visible at the next read
+   (D29, fixed in /repo: the helper invalidates the cache) *)
+Lemma current_direct_example :
+  map ks_attrs (k_states (snd (getter (run_ops [OGet; ODirectState 0 ["A"] "late"]
+        (construct true (to_markup (mkMachine true [st "A" [] []] [] (Some (inl "A")) "" [] [] [] [] [] []
+                                              false false "state" false None false []))))))) 
+  = [[("on_enter", AList ["late"])]].
+Proof. vm_compute. reflexivity. Qed.
 
 (* documented limit: a machine-level list reassigned after construction is not exported *)
 Lemma current_refuted_set_list :
